@@ -226,4 +226,12 @@ to the hello): no connection is opened, or left open, by a region client after i
 theorem dial_checks_closed_before_and_after_in_source :
     GV.Gen.Exits.dialSteps = ["closed?", "dial", "store", "closed?", "hello"] := by decide
 
+/-- Regenerated from zk/client.go (`LocateResource`): the ZooKeeper session opened for one lookup is
+released by a `defer` placed right after the connect and before the read, i.e. on every path out
+of the function — a failed read included. A session that is not closed keeps its goroutines and
+keeps redialling the quorum once a second, whatever the client's `Close` does (observed as
+`activity-after-close-zookeeper-down-real` on a seeded change). -/
+theorem zookeeper_session_released_on_every_path_in_source :
+    GV.Gen.Exits.zkLocateSteps = ["connect", "defer-close", "get"] := by decide
+
 end GV.ConnCache
